@@ -540,6 +540,19 @@ fn compile_file(mut config: FinalConfig) -> io::Result<()> {
 
     let mut generic_values = Arena::new();
 
+    // verification hook: record the scheduling operations of type inference
+    #[cfg(capy_verif)]
+    let verif_sched_trace = env::var_os("CAPY_VERIF_SCHED_TRACE");
+    #[cfg(capy_verif)]
+    if verif_sched_trace.is_some() {
+        hir_ty::verif::start_recording(
+            true,
+            env::var("CAPY_VERIF_ROUND_FUEL")
+                .ok()
+                .and_then(|f| f.parse().ok()),
+        );
+    }
+
     let InferenceResult {
         tys,
         diagnostics: ty_diagnostics,
@@ -590,6 +603,15 @@ fn compile_file(mut config: FinalConfig) -> io::Result<()> {
         },
     )
     .finish(entry_point, !config.verbose_types.is_none());
+
+    #[cfg(capy_verif)]
+    if let Some(path) = verif_sched_trace {
+        let trace = hir_ty::verif::take_trace()
+            .into_iter()
+            .map(|op| format!("{op:?}\n"))
+            .collect::<String>();
+        fs::write(path, trace).unwrap();
+    }
 
     if !config.verbose_types.is_none() {
         let debug = tys.debug(
